@@ -27,7 +27,11 @@ CARRIERS = [
     ("68000", "move.w ({X}), d0", True, dict(set=[], lt=65536, short=4, long=6), False),
     ("6809", "lda {X},x", True, dict(set=[], lt=128, short=2, long=3), False),
     ("z80", "ld a, ({X})", False, dict(set=[], lt=65536, short=3, long=3), False),
+    # with -optimize an index of 0 becomes @Rn (2 bytes instead of 4)
+    ("msp430", "mov.w {X}(r4), r5", False, dict(set=[0], lt=0, short=2, long=4), False),
 ]
+# carriers (by index) assembled with the -optimize option
+OPTIMIZE = {11}
 
 
 def render(prog, cpu, tmpl):
@@ -113,7 +117,8 @@ def run(tier, seed):
             cid = "%d.%s.%d" % (i, cpu, CARRIERS.index((cpu, tmpl, big, rule, modelled)))
             src = render(p, cpu, tmpl)
             meta[cid] = (i, cpu, big, rule, modelled, src)
-            cases.append((cid, "imgmax=8192", src))
+            opt = " optimize=1" if CARRIERS.index((cpu, tmpl, big, rule, modelled)) in OPTIMIZE else ""
+            cases.append((cid, "imgmax=8192" + opt, src))
     obs = C.conform_parallel(vdir, "asm", cases, rd, "c02")
     byid = {o["case"]: o for o in obs}
     if len(byid) != len(cases):
@@ -177,7 +182,7 @@ def run(tier, seed):
                         return True
                 return False
             if not modelled and forward_ref(progs[i]):
-                tm = [c[1] for c in CARRIERS if c[0] == cpu][int(cid.split(".")[-1]) - [c[0] for c in CARRIERS].index(cpu)]
+                tm = CARRIERS[int(cid.split(".")[-1])][1]
                 chk.report("TwoPass.ForwardReferenceShrinksInPass2@%s:%s" % (cpu, tm),
                            "labels %s drift between passes on .%s (forward reference, no scopes)\n%s" % (v["drift"], cpu, src), payload)
             elif any(s["k"] == "scope" for s in progs[i]) and not modelled:
